@@ -93,8 +93,13 @@ class InfraError(Exception):
     pass
 
 
+_CHECKS = []     # the Check objects of this process (run_check reports what they had found when
+#                  the harness itself fails later on)
+
+
 class Check:
     def __init__(self, pid, module=None, design_ref='', extra_modules=()):
+        _CHECKS.append(self)
         self.pid = pid
         self.module = module or 'Bardolph.Props.' + pid
         # further modules whose theorems belong to this property (helper proofs, split files)
@@ -429,6 +434,19 @@ def run_check(main):
         import traceback
         traceback.print_exc()
         print('INFRASTRUCTURE-FAILURE: {}: {}'.format(type(ex).__name__, ex))
+        # … but violations of the real code found BEFORE the crash stand: report them (exit 1)
+        # rather than lose them behind an exit 2
+        found = [c for c in _CHECKS if c.violations]
+        if found:
+            chk = found[0]
+            chk.assumptions.append('the harness failed after these violations had been found ({}: {}); '
+                                   'the streams after that point did not run'.format(type(ex).__name__, ex))
+            try:
+                chk.finish()
+            except SystemExit:
+                raise
+            except BaseException:  # noqa
+                traceback.print_exc()
         sys.exit(2)
 
 
